@@ -34,7 +34,7 @@ import (
 //	C14.count-not-zero      Count() != 0 right after Wait returned with no Call in flight
 //	C14.fresh-call          after everything drained, a new Call(1, f) does not run f and return its result
 func init() {
-	Register(Harness{Prop: "C14", Name: "C14/pool", Run: c14Pool})
+	Register(Harness{Prop: "C14", Name: "C14/pool", Run: c14Pool, Weight: 4})
 }
 
 type wkRes struct{ id int }
